@@ -147,28 +147,70 @@ def run(f, fixture, rep, cfg, tier):
     rep.count("ambient_sites", len(ambient_sites))
 
     # ---- R3 --------------------------------------------------------------------------------
-    pd = f.one("PackageBuilder::prepare_data")
-    cls = clamps(pd)
-    tbp = TermBuilder(pd)
-    want = {"build time": "rpm::timestamp::Timestamp::now()", "file mtime": ".modified_at"}
-    found = {}
-    for cl in cls:
-        for what, suffix in want.items():
-            if cl["v"].endswith(suffix):
-                found[what] = cl
-    for what in want:
-        if rep.check(what in found, "R3", "prepare_data|%s|present" % what, "%s is compared with the source date" % what,
-                     "prepare_data no longer compares the %s with the source date: it is not clamped" % what, pd.span):
-            check_clamp(pd, found[what], rep, what)
-    # consumers
+    # Every time value that reaches the output is min(source date, actual value).  Two spellings are recognised:
+    #   guarded:    match source_date { Some(d) if d < v => d, _ => v }   - a CFG pattern, checked with its polarity
+    #   combinator: MIN(source_date, v) after idiom normalisation (rules/idioms.py)
+    from idioms import normalize
     from c08 import index_entries
-    ents = {tag: data for (tag, data, _c) in index_entries(pd, tbp)}
-    bt = ents.get("RPMTAG_BUILDTIME", "")
-    rep.check(bt == "rpm::headers::header::IndexData::Int32{vec![phi(self.source_date<Some>.0 | rpm::timestamp::Timestamp::now())]}", "R3", "BUILDTIME|consumer",
-              "RPMTAG_BUILDTIME carries the clamped value", "RPMTAG_BUILDTIME is %s" % bt[:200], pd.span)
-    mt = ents.get("RPMTAG_FILEMTIMES", "")
-    rep.check("push(phi(self.source_date<Some>.0 | " in mt and mt.endswith(".modified_at))]}"), "R3", "FILEMTIMES|consumer",
-              "RPMTAG_FILEMTIMES carries the clamped value per file", "RPMTAG_FILEMTIMES is %s" % mt[:240], pd.span)
+    pd = f.one("PackageBuilder::prepare_data")
+    tbp = TermBuilder(pd)
+
+    def first_elem(t):
+        """element pushed into / listed in an Int32 array term"""
+        t2 = t
+        if t2[0] == "agg" and t2[2]:
+            t2 = t2[2][0]
+        if t2[0] == "vec" and t2[1]:
+            return t2[1][0]
+        if t2[0] == "buf":
+            for w in t2[1]:
+                if w[0] == "write" and w[1].endswith("::push") and w[2]:
+                    return w[2][-1]
+        return None
+
+    def strip_conv(t):
+        for _ in range(4):
+            if t[0] == "call" and re.search(r"(Into::into|From::from)$", t[1]) and len(t[2]) == 1:
+                t = t[2][0]
+            elif t[0] == "cast":
+                t = t[2]
+            else:
+                break
+        return t
+
+    def check_consumer(body, tb, term, what, v_suffix, key_present, key_consumer, cls_pool, loc):
+        """`term` must be min(self.source_date, V) with V ending in v_suffix."""
+        if term is None:
+            rep.finding("R3", key_present, "%s: the value written cannot be located" % what, loc)
+            return
+        nt = normalize(f, strip_conv(term))
+        r = render(nt)
+        if nt[0] == "call" and nt[1] == "MIN":
+            o, v = render(nt[2][0]), render(nt[2][1])
+            okc = o.endswith("self.source_date") and v.endswith(v_suffix)
+            rep.check(okc, "R3", key_present, "%s is min(source date, %s)" % (what, v_suffix.strip(".")), "%s is clamped as MIN(%s, %s), not against the source date / the actual value" % (what, o[:80], v[:80]), loc)
+            rep.ok("R3", "%s: consumer receives the clamped value (combinator form)" % what, loc)
+            return
+        found = [cl for cl in cls_pool if cl["v"].endswith(v_suffix)]
+        if rep.check(len(found) >= 1, "R3", key_present, "%s is compared with the source date" % what,
+                     "%s is not clamped: no comparison with the source date and no min() form (value is %s)" % (what, r[:160]), loc):
+            check_clamp(body, found[0], rep, what)
+        m = re.fullmatch(r"phi\((.*self\.source_date<Some>\.0) \| (.*)\)", r)
+        rep.check(m is not None and m.group(2).endswith(v_suffix) and "phi(" not in m.group(2), "R3", key_consumer, "%s: the consumer receives the clamped value" % what,
+                  "%s is %s" % (what, r[:200]), loc)
+
+    cls = clamps(pd)
+    ent_terms = {}
+    for c in pd.calls():
+        if re.search(r"IndexEntry::<.*>::new$", c.decl):
+            from terms import strip_proj
+            tt = strip_proj(tbp.term(c.args[0]))
+            tag = tt[1].rsplit("::", 1)[-1] if tt[0] == "agg" else render(tt)
+            ent_terms[tag] = tbp.term(c.args[2])
+    bt = ent_terms.get("RPMTAG_BUILDTIME")
+    check_consumer(pd, tbp, first_elem(bt) if bt else None, "build time", "rpm::timestamp::Timestamp::now()", "prepare_data|build time|present", "BUILDTIME|consumer", cls, pd.span)
+    mt = ent_terms.get("RPMTAG_FILEMTIMES")
+    check_consumer(pd, tbp, first_elem(mt) if mt else None, "file mtime", ".modified_at", "prepare_data|file mtime|present", "FILEMTIMES|consumer", cls, pd.span)
     # cpio mtime: the cpio entries are written with mtime 0 (Builder default) - never the raw file time
     for c in pd.calls():
         if c.decl.endswith("payload::Builder::mtime"):
@@ -178,14 +220,11 @@ def run(f, fixture, rep, cfg, tier):
         bs = f.one("PackageBuilder::build_and_sign")
         cls = clamps(bs)
         tbs = TermBuilder(bs)
-        if rep.check(len(cls) == 1, "R3", "build_and_sign|signature time|present", "the signature time is compared with the source date",
-                     "build_and_sign has %d comparisons with the source date" % len(cls), bs.span):
-            check_clamp(bs, cls[0], rep, "signature time")
+        sw = [c for c in bs.calls() if c.decl.endswith("Package::sign_with_timestamp")]
+        if rep.check(len(sw) >= 1, "R3", "build_and_sign|signs-with-timestamp", "build_and_sign signs with an explicit time", "build_and_sign no longer calls sign_with_timestamp", bs.span):
+            for c in sw:
+                check_consumer(bs, tbs, tbs.term(c.args[2]), "signature time", "rpm::timestamp::Timestamp::now()", "build_and_sign|signature time|present", "build_and_sign|consumer", cls, c.loc())
         for c in bs.calls():
-            if c.decl.endswith("Package::sign_with_timestamp"):
-                t = render(tbs.term(c.args[2]))
-                rep.check(t == "phi(self.source_date<Some>.0 | rpm::timestamp::Timestamp::now())", "R3", "build_and_sign|consumer",
-                          "the signer receives the clamped time", "sign_with_timestamp is given %s" % t[:200], c.loc())
             if c.decl.endswith("Package::sign"):
                 rep.finding("R3", "build_and_sign|unclamped-sign", "build_and_sign calls Package::sign, which uses the current time unclamped", c.loc())
 
